@@ -20,7 +20,7 @@ ASSUMPTIONS = [
 def params(tier):
     if tier == "quick":
         return {"grammar": "core", "size": 3, "depth": 3}
-    return {"grammar": "core", "size": 4, "depth": 3, "full_size": 3}
+    return {"grammar": "core", "size": 4, "depth": 3, "full_size": 3, "deep": "size 5, >= 2 with-blocks, plain function and coroutine, 3.11 and 3.12"}
 
 
 def bounds(tier):
@@ -30,7 +30,11 @@ def bounds(tier):
 def legs(tier):
     from vlib.runner import Leg
     n = 4 if tier == "quick" else 16
-    return [Leg(v, n) for v in ("3.12", "3.11", "3.10", "3.9")]
+    out = [Leg(v, n) for v in ("3.12", "3.11", "3.10", "3.9")]
+    if tier != "quick":
+        # size-5 programs with >= 2 with-blocks, on the interpreters whose exit-site resolution is bytecode-pattern based
+        out += [Leg("3.12", 16, args={"deep": True}, name="3.12-deep"), Leg("3.11", 16, args={"deep": True}, name="3.11-deep")]
+    return out
 
 
 KINDS = ("func", "gen", "coro", "agen")
@@ -55,9 +59,42 @@ def space(tier):
                 yield body
 
 
+def count_withs(x):
+    if isinstance(x[0], str):
+        n = {"with1": 1, "with1n": 1, "awith1": 1, "awith1n": 1, "with2": 2, "awith2": 2, "mixwith2": 2, "mixwith2r": 2, "with3": 3}.get(x[0], 0)
+        return n + sum(count_withs(y) for y in x[1:] if isinstance(y, tuple))
+    return sum(count_withs(st) for st in x)
+
+
+def deep_space():
+    """thorough only: size-5 bodies (core grammar, no probe leaves - the probes inside every enter/exit suffice) that
+    contain at least two with-blocks: the shapes where one block's exit sequence sits next to another block's code."""
+    g = ps.grammar("core")
+    for body in ps.gen_body(g, 5, False, 3):
+        if count_withs(body) >= 2:
+            yield body
+
+
 def run(ctx):
     from vlib.ctxobs import run_program
     idx = 0
+    if ctx.args.get("deep"):
+        for body in deep_space():
+            for kind in ("func", "coro"):
+                if not ps.kind_ok(body, kind):
+                    continue
+                idx += 1
+                if not ctx.mine(idx):
+                    continue
+                npaths, nobs = run_program(body, kind, ctx, make_observer)
+                ctx.count("programs")
+                ctx.count("deep_programs")
+                ctx.count("distinct_nontrivial")
+                ctx.count("paths", npaths)
+                ctx.count("evaluations", nobs)
+                if idx % 9973 == 0:
+                    ctx.sample({"kind": kind, "src": ps.render(body, kind)[0]})
+        return
     for body in space(ctx.tier):
         for kind in KINDS:
             if not ps.kind_ok(body, kind):
